@@ -1698,12 +1698,26 @@ def install_clean(reg):
             return ExpMat(1, shp[1], lambda t: mono_zero, Region("fresh"), as_dtype(ex, kw.get("dtype", "float64"), node))
         return prev_zeros(ex, args, kw, node)
 
-    @ax("numpy.zeros_like")
-    def zeros_like(ex, args, kw, node):
-        a = args[0]
-        if isinstance(a, Arr) and len(args) == 1 and not kw:
-            return Arr(a.shape, lambda i: z3.RealVal(0), a.kind, a.dtype, Region("fresh"))
-        raise U("numpy.zeros_like of this value", node)
+    def like(fname, value):
+        @ax(f"numpy.{fname}")
+        def _like(ex, args, kw, node):
+            a = args[0]
+            if isinstance(a, Arr) and len(args) == 1 and set(kw) <= {"dtype", "order", "shape"}:
+                # dtype=None / shape=None: those of the prototype array; order only concerns the memory layout
+                dt = a.dtype if kw.get("dtype") is None else as_dtype(ex, kw["dtype"], node)
+                shp = a.shape
+                if kw.get("shape") is not None:
+                    if not isinstance(kw["shape"], ShapeV):
+                        raise U(f"numpy.{fname} with this shape argument", node)
+                    shp = kw["shape"].term
+                isb = simplify_bool(dt == dt_bool) is True
+                v = z3.BoolVal(bool(value)) if isb else z3.RealVal(value)
+                out = Arr(shp, lambda i: v, "bool" if isb else ("real" if a.kind == "bool" and not isb else a.kind), dt, Region("fresh"))
+                out.like_of = (a, dict(kw))
+                return out
+            raise U(f"numpy.{fname} of this value", node)
+    like("zeros_like", 0)
+    like("ones_like", 1)
 
     @ax("numpy.array")
     def array(ex, args, kw, node):
